@@ -51,6 +51,7 @@ REQUIRED = {
         'step:classify': 1, 'step:set-zeta-grid': 1, 'step:set-curvature': 1, 'step:rise': 1, 'step:recession': 1,
         'commit-statements-seen': 5,
         'rejected-argument-attempts-checked': 2,
+        'datasets-with-a-reading-isolated-between-two-outages': 1,
         'long-record:kills-at-statement-boundaries': 3,
         'long-record:reruns-after-kill-checked': 4,
     }
@@ -159,6 +160,13 @@ def make_dataset(ctx, rng, index):
                                grid_step=rng.choice([2.0, 2.5, 5.0]) if small else rng.choice([1.0, 2.0, 2.5]))
         if len(cand['rain']) >= (170 if small else 260) or len(cand['dropped']) < 2:
             continue
+        # one reading isolated between two outages (a data interval of a single sample)
+        zt = [t for t, _ in cand['z']]
+        step_s = cand['step']
+        inner = [k for k in range(3, len(zt) - 3) if zt[k + 2] - zt[k - 2] == 4 * step_s]
+        if inner:
+            k = rng.choice(inner)
+            cand = dict(cand, z=[p for j, p in enumerate(cand['z']) if j not in (k - 1, k + 1)], isolated_reading=zt[k])
         probe = os.path.join(ctx.workdir, 'probe.sqlite3')
         if curves_common.make_curves_db(ctx, cand, probe) is None:
             os.remove(probe)
@@ -166,6 +174,8 @@ def make_dataset(ctx, rng, index):
             break
     if case is None:
         return None, None
+    if 'isolated_reading' in case:
+        ctx.rec.hit('datasets-with-a-reading-isolated-between-two-outages')
     paths = data.write_case_files(case, ctx.workdir, 'a{}'.format(index))
     base = os.path.join(ctx.workdir, 'a{}_base.sqlite3'.format(index))
     if os.path.exists(base):
